@@ -17,5 +17,10 @@ AllPlain == UNION {{[k |-> "up", op |-> op, kind |-> kd, shapes |-> Plain(n), fa
                       op \in Ops, kd \in Kinds, n \in 0..MaxN}
 OneOdd == UNION {{[k |-> "up", op |-> op, kind |-> kd, shapes |-> [Plain(n) EXCEPT ![i] = sh], fault |-> NoFault] :
                       i \in 1..n, sh \in {"dotdot", "abs", "sub"}} : op \in Ops, kd \in Kinds, n \in 1..MaxN}
-ASSUME Emit(SetToSeq(AllPlain \cup OneOdd))
+\* control files that carry only some of the three file lists (no Files field): whatever names they list,
+\* nothing outside the two directories may be touched
+Partial == UNION {{[k |-> "up", op |-> op, kind |-> kd, shapes |-> [Plain(n) EXCEPT ![i] = sh], fault |-> NoFault, lists |-> li] :
+                      i \in 1..n, sh \in {"plain", "dotdot", "abs"}, li \in {"sha256only", "sha1only", "nofiles"}} :
+                   op \in Ops, kd \in Kinds, n \in 1..2}
+ASSUME Emit(SetToSeq(AllPlain \cup OneOdd) \o SetToSeq(Partial))
 =============================================================================
